@@ -21,6 +21,27 @@ def gcHz (c : Sys) : Nat := match c.reg.head? with | some tx => tx.seq | none =>
     drawn (the counter advances) -/
 def gcDraw (c : Sys) : Sys := match c.reg.head? with | some _ => c | none => { c with counter := c.counter + 1 }
 
+/-- the registry as `txRepo.Oldest` finds it while the transactions `cl` are inside Commit / Rollback:
+    `txRepo.Delete` has already removed them (their UpdateTx / DeleteTx is still to come) -/
+def liveReg (c : Sys) (cl : List Nat) : List TxRec := c.reg.filter (fun r => !cl.contains r.id)
+
+/-- the horizon step with transactions inside Commit / Rollback -/
+def gcHzX (c : Sys) (cl : List Nat) : Nat :=
+  match (liveReg c cl).head? with | some tx => tx.seq | none => c.counter + 1
+
+def gcDrawX (c : Sys) (cl : List Nat) : Sys :=
+  match (liveReg c cl).head? with | some _ => c | none => { c with counter := c.counter + 1 }
+
+/-- the counter is raised to `n` (by another database of the process, or by a number drawn without
+    any effect on this database); it never goes down -/
+def Sys.tick (c : Sys) (n : Nat) : Sys := { c with counter := max c.counter n }
+
+/-- operations interleaved with counter advances -/
+inductive EOp
+  | op (o : Op)
+  | tick (n : Nat)
+deriving DecidableEq, Repr
+
 /-- what `core.DeleteOld(MainTxId, hz)` returns: per key the versions collected at horizon `hz` -/
 def delsAt (c : Sys) (hz : Nat) : List Ver := c.dom.flatMap (fun k => (collect (c.main k) hz).1)
 
